@@ -41,7 +41,8 @@ Reason(r) ==
                ELSE IF x.res \in {"ok", "known"} /\ r.res = "soft" THEN "C11:admissible-refused-as-soft"
                ELSE IF x.res \in {"ok", "known"} THEN "C06:admission"
                ELSE "C11:class")                                                                                                \* refused, but for the wrong kind of reason
-           ELSE IF r.kind = "foreign" /\ r.softErr # x.softErr THEN "C11:soft-verdict"
+           ELSE IF r.kind = "foreign" /\ r.softErr # x.softErr THEN
+                  (IF post # x.pool THEN "C11:soft-verdict+C06:valid-flag" ELSE "C11:soft-verdict")     \* the wrong verdict is also stored as the pool's flag
            ELSE IF post # x.pool THEN (IF Hashes(post) # Hashes(x.pool) THEN "C06:pool-membership" ELSE "C06:valid-flag")
            ELSE "ok"
     [] r.ev = "refresh" ->
